@@ -74,7 +74,9 @@ def run_verus_for(pid, u, repo, tier):
         for ps, name in e["labels"]:
             if pid in ps:
                 failed_label_names.add(name)
-    res["discharged"] = len(mine_labels) - len(failed_label_names) + r.verified
+    bad_fns = set((e.get("impl"), e.get("fn")) for e in failed_mine + failed_unlabelled)
+    # a function whose only failures are obligations of *other* properties still discharged this property's clauses
+    res["discharged"] = len(mine_labels) - len(failed_label_names) + n_fn - len(bad_fns)
     info["failed_other_properties"] = [{"labels": [n for _, n in e["labels"]], "message": e["message"], "fn": e.get("fn")} for e in failed_other]
     info["failed_unlabelled"] = [{"message": e["message"], "fn": e.get("fn"), "lines": e["lines"][:3]} for e in failed_unlabelled]
     if failed_mine:
